@@ -16,6 +16,7 @@ THEOREMS = [
     "Astm.C13.not_used_stores_nothing", "Astm.C13.set_stored_iff_member", "Astm.C13.constant_stored_iff_equal",
     "Astm.C13.integer_stored_iff_int", "Astm.C13.check_digits_exact", "Astm.C13.datetime_stored_exact",
     "Astm.C13.date_stored_exact", "Astm.C13.stored_value_reads_back", "Astm.C13.integer_reads_back", "Astm.C13.record_reads_back", "Astm.C13.shipped_schemas_read_back", "Astm.C13.too_many_values_error", "Astm.C13.example_calendar",
+    "Astm.C13.list_operation_all_or_nothing", "Astm.C13.list_operation_stores_checked_components",
     "Astm.C13.anchored_code_keeps_no_other_state",
 ]
 RULE = ("every scalar field instance and every sub-field of every schema (contract tables) with values inside, on the "
@@ -381,6 +382,7 @@ def run(ctx):
     # exactly what it was before the call (nothing stored, not even the valid items in front of it)
     px = Stream("list-operations")
     import copy
+    plines, pexp = [], []
     for module, letter, spec in schemaio.record_specs():
         cls = schemaio.real_class(module, letter)
         if cls is None:
@@ -407,45 +409,83 @@ def run(ctx):
                     if bad_v is not None:
                         bads.append([None] * j + [bad_v])
                 bad = r.choice(bads)
+                names_ = [x["name"] for x in spec["fields"]]
+                idx = names_.index(f["name"])
+                g1, g2 = good(), good()
+                rec_list = [None] * idx + [[g1, g2]]
+                if "timestamp" in names_:
+                    ti = names_.index("timestamp")
+                    rec_list = rec_list + [None] * (ti + 1 - len(rec_list))
+                    rec_list[ti] = rec_list[ti] or "20240101000000"
                 try:
-                    obj = cls()
-                    setattr(obj, f["name"], [good(), good()])
+                    obj = cls(*rec_list)
                     before = copy.deepcopy(obj.to_dict())
                 except Exception:
                     break
                 op = r.choice(["append", "extend-valid-then-invalid", "iadd-valid-then-invalid", "insert", "setitem",
-                               "extend-invalid-first"])   # (slice assignment reaches __setitem__ with a list: O13)
+                               "extend-invalid-first", "extend-all-valid", "insert-valid"])   # (slice assignment: O13)
                 lst = getattr(obj, f["name"])
                 raised = None
+                wires, sel = [], []
                 try:
                     if op == "append":
+                        wires, sel = [bad], ["o0", "o1", "n0"]
                         lst.append(bad)
                     elif op == "extend-valid-then-invalid":
-                        lst.extend([good(), good(), bad])
+                        wires, sel = [good(), good(), bad], ["o0", "o1", "n0", "n1", "n2"]
+                        lst.extend(list(wires))
                     elif op == "iadd-valid-then-invalid":
-                        lst += [good(), bad, good()]
+                        wires, sel = [good(), bad, good()], ["o0", "o1", "n0", "n1", "n2"]
+                        lst += list(wires)
                     elif op == "insert":
-                        lst.insert(r.randrange(0, 3), bad)
+                        i_ = r.randrange(0, 3)
+                        wires, sel = [bad], ["o0", "o1"][:i_] + ["n0"] + ["o0", "o1"][i_:]
+                        lst.insert(i_, bad)
                     elif op == "setitem":
-                        lst[r.randrange(0, 2)] = bad
+                        i_ = r.randrange(0, 2)
+                        wires, sel = [bad], ["n0" if j_ == i_ else "o%d" % j_ for j_ in range(2)]
+                        lst[i_] = bad
+                    elif op == "extend-all-valid":
+                        wires, sel = [good(), good()], ["o0", "o1", "n0", "n1"]
+                        lst.extend(list(wires))
+                    elif op == "insert-valid":
+                        i_ = r.randrange(0, 3)
+                        wires, sel = [good()], ["o0", "o1"][:i_] + ["n0"] + ["o0", "o1"][i_:]
+                        lst.insert(i_, wires[0])
                     else:
-                        lst.extend([bad, good()])
+                        wires, sel = [bad, good()], ["o0", "o1", "n0", "n1"]
+                        lst.extend(list(wires))
                 except Exception as exc:  # noqa
                     raised = type(exc).__name__
-                case = {"module": module, "letter": letter, "field": f["name"], "operation": op, "invalid_item": bad}
+                valid_op = op in ("extend-all-valid", "insert-valid")
+                case = {"module": module, "letter": letter, "field": f["name"], "operation": op,
+                        "invalid_item": None if valid_op else bad}
                 px.case(case)
                 px.count(op)
                 try:
                     after = obj.to_dict()
                 except Exception as exc:  # noqa
                     after = "ERR " + type(exc).__name__
-                if raised is None:
+                if valid_op:
+                    if raised is not None or after == before:
+                        px.fail(dict(case, raised=raised), "%s with occurrences that satisfy every constraint is refused / stores nothing" % op,
+                                "list-operations/refused")
+                elif raised is None:
                     px.fail(dict(case, after=repr(after)[:200]), "%s with an item violating its constraint raises no error" % op,
                             "list-operations/accepted")
                 elif after != before:
                     px.fail(dict(case, before=repr(before[f["name"]])[:200], after=repr(after if isinstance(after, str) else after[f["name"]])[:200]),
                             "%s raised %s but the record was changed (something was stored)" % (op, raised),
                             "list-operations/partial")
+                if not isinstance(after, str):
+                    plines.append("heap %s C %s %s %s ; RLC 0 %s %s %s %s" % (
+                        module, letter, codecio.cps("20240101000000"), codecio.record_wire(rec_list), letter, f["name"],
+                        codecio.field_wire([list(w_) + [None] * (k - len(w_)) for w_ in wires]), ",".join(sel)))
+                    pexp.append((case, "ok " + schemaio.dict_wire(before) + " ## " + schemaio.dict_wire(after)))
+    pmodel = common.drive(plines) if ctx.driver_ok else [None] * len(plines)
+    for (case, exp_), ml in zip(pexp, pmodel):
+        if ml is not None and ml != exp_:
+            px.disagree(case, exp_[-300:], ml[-300:])
     streams.append(px)
     # what is in force for a class must not depend on which classes the process used before
     from harness.props import C20
